@@ -10,6 +10,7 @@ import GrinVerif.Lemmas.SegChunks
 import GrinVerif.Lemmas.SegCompleteList
 import GrinVerif.Lemmas.SegHashExtra
 import GrinVerif.Lemmas.SegPrunedList
+import GrinVerif.Lemmas.SegFupViews
 /-! # C16 — state segments are sound; state sync never finalises other roots
 
 Property theorems only (helper lemmas live in `Lemmas/Seg*.lean`; model `Model/Seg.lean`).
@@ -788,18 +789,30 @@ example : ∀ id ∈ [(⟨2, 2⟩ : Ident), ⟨1, 2⟩, ⟨2, 1⟩, ⟨1, 5⟩, 
 
 `PrunedView hf f N b V` (`Lemmas/SegPruned.lean`) characterises what the `ReadonlyPMMR` of a store
 in a state reachable through its usage protocol answers, together with the bitmap `b` of unspent
-leaf indices (`N < 2^32` leaves): everything on file is genuine; a leaf on file has its data; inner
-positions are read through `get_from_file`; peaks are on file; and a position is off file only
-strictly inside a compacted subtree — if an inner node or one of its children is off file, both
-children are off file and no leaf below the node is marked unspent (`compacted`).  `get_hash` of a
-*leaf* is not constrained (spent leaves are hidden by the leaf set).
+leaf indices (`N < 2^32` leaves): everything on file is genuine; a leaf on file has its data, and a
+leaf off file has none (`data_compacted`: `get_from_file` and `get_data_from_file` both start with
+the `is_compacted` test); inner positions are read through `get_from_file`; peaks are on file; and
+a position is off file only strictly inside a compacted subtree — if an inner node or one of its
+children is off file, both children are off file and no leaf below the node is marked unspent
+(`compacted`).  `get_hash` of a *leaf* is not constrained (spent leaves are hidden by the leaf set).
 
-Full statement intended (`segment_complete_pruned`): for every such view, every identifier whose
-range intersects the MMR: `∃ s, from_pmmr(id, V, prunable = true) = Ok(s) ∧
-validate(size, Some(bitmap), root) = Ok`.  Proven below for every identifier of **height ≥ 1**
-whose subtree root is **on file** when the segment is full (live, partly compacted, or completely
-spent but not yet compacted below its root) and for the final, not full segment in every prune
-state.  What is left out, and why:
+`segment_complete_pruned`: for every such view and every identifier of **height ≥ 1** whose range
+intersects the MMR: `∃ s, from_pmmr(id, V, prunable = true) = Ok(s) ∧ validate(size, Some(bitmap),
+root) = Ok` (and `validate_with`).  Three cases:
+* the full segment whose subtree root is on file — live, partly compacted, or completely spent but
+  not yet compacted below its root (`pruned_full_segment_root`);
+* the final, not full segment, in every prune state (spent peaks are loaded from the hashes);
+* the **completely compacted full segment** (`compacted_full_segment`): its last position lies
+  strictly inside a compacted subtree, so `from_pmmr` finds neither data nor hashes in the range,
+  takes its "fully pruned segment" branch and ships exactly one hash — the first position `a` of
+  the family branch that is on file — with a proof that starts above `a`; `Segment::root` answers
+  `Ok(None)` (no leaf of the range is required: none is marked, each has its sibling in the range,
+  none is the last position); `first_unpruned_parent` walks up the family branch — the segment has
+  no hash at the positions below `a`, and the bitmap cardinality under every ancestor up to and
+  including `a` is 0 by `compacted` applied at `a`, whose child on the branch is off file (the
+  walk-up lemma, `fupLoop_walk`) — and returns the hash at `a`, from which the proof re-bags the
+  MMR root.
+What stays excluded, and why:
 * *height 0* — the statement is **false** for the code: a single-leaf segment whose leaf and
   sibling are both spent has no root of its own (`root = Ok(None)`) and carries its data, not its
   hash, so `first_unpruned_parent` walks up and ends in `MissingHash`; over a real store
@@ -808,23 +821,100 @@ state.  What is left out, and why:
   identifier (height 0, idx 0).  The harness reproduces it on the real code (class
   `height0-both-unmarked`, compared with the model only).  Heights 0 are never requested
   (`pibd_params`: 9 / 11), so this is a latent defect, not a live one.
-* *completely compacted full segment* (its last position strictly inside a compacted subtree: the
-  segment is one hash, the first parent on file, and `first_unpruned_parent` walks up checking the
-  bitmap cardinality of every ancestor) — true as far as the correspondence run shows (`leafless`
-  / `ancestor` / `store` runs), the walk-up lemma (`fupLoop` finds the first on-file ancestor
-  because every ancestor below it has no marked leaf, by `compacted`) is not proven here.
-  Soundness of that route is proven: `pruned_parent_covers_only_spent`. -/
+The field `data_compacted` is needed: `pruned_view_needs_data_compacted` below. -/
 
-/-- **segment_complete_pruned_partial.**  See the comment above for the full statement and the two
-excluded cases. -/
-theorem segment_complete_pruned_partial (hf : HashFn α H) [DecidableEq H] (f : Nat → α) (N : Nat)
+/-- **segment_complete_pruned.**  Completeness with a bitmap, every prune state: for every view of
+a pruned / compacted store (`PrunedView`, with the bitmap `b` of unspent leaves) and every
+identifier of height ≥ 1 whose range intersects the MMR, the honest segment
+`from_pmmr(id, V, prunable = true)` exists and `validate(size, Some(b), root)` accepts it, and so
+does `validate_with` against the root merged with any other root on either side.  (Height 0: the
+statement is false for the code — see the comment above.) -/
+theorem segment_complete_pruned (hf : HashFn α H) [DecidableEq H] (f : Nat → α) (N : Nat)
     (b : Nat → Bool) (V : View α H) (pv : PrunedView hf f N b V) (id : Ident) (fit : FitId id N)
-    (hg : 1 ≤ id.height) (hon : FullId id (mmr N) → V.fromFile (lastOf id) ≠ none) :
+    (hg : 1 ≤ id.height) :
     ∃ s r, fromPmmr hf V id true = .ok s ∧ rootOf hf f N = some r ∧ s.id = id ∧
       s.validate hf (mmr N) (some b) r = .ok () ∧
       ∀ hlp other left, s.validateWith hf (mmr N) (some b)
         (if left then hf.node hlp other r else hf.node hlp r other) hlp other left = .ok () :=
-  complete_pruned hf f N b V pv id fit hg hon
+  complete_pruned_all hf f N b V pv id fit hg
+
+/-- the former partial version (extra hypothesis `hon`: the subtree root of a full segment is on
+file); kept under its name, now a corollary of `segment_complete_pruned` -/
+theorem segment_complete_pruned_partial (hf : HashFn α H) [DecidableEq H] (f : Nat → α) (N : Nat)
+    (b : Nat → Bool) (V : View α H) (pv : PrunedView hf f N b V) (id : Ident) (fit : FitId id N)
+    (hg : 1 ≤ id.height) (_hon : FullId id (mmr N) → V.fromFile (lastOf id) ≠ none) :
+    ∃ s r, fromPmmr hf V id true = .ok s ∧ rootOf hf f N = some r ∧ s.id = id ∧
+      s.validate hf (mmr N) (some b) r = .ok () ∧
+      ∀ hlp other left, s.validateWith hf (mmr N) (some b)
+        (if left then hf.node hlp other r else hf.node hlp r other) hlp other left = .ok () :=
+  segment_complete_pruned hf f N b V pv id fit hg
+
+/-- **compacted_full_segment.**  The completely compacted full segment (height ≥ 1, subtree root
+off file): the honest segment is one hash and no leaves; the hash is the committed hash at `a`,
+the first position of the family branch of the segment's last position that is on file (everything
+on the branch below `a` is off file); `root` answers `Ok(None)`, `first_unpruned_parent` answers
+`(hash at a, 1 + a)`, and `validate` / `validate_with` accept. -/
+theorem compacted_full_segment (hf : HashFn α H) [DecidableEq H] (f : Nat → α) (N : Nat)
+    (b : Nat → Bool) (V : View α H) (pv : PrunedView hf f N b V) (id : Ident) (v : FullId id (mmr N))
+    (hg : 1 ≤ id.height) (hoff : V.fromFile (lastOf id) = none) :
+    ∃ a s r, fromPmmr hf V id true = .ok s ∧ rootOf hf f N = some r ∧ s.id = id ∧
+      s.hashPos = [a] ∧ s.hashes = [hAt hf f a] ∧ s.leafPos = [] ∧ s.leafData = [] ∧
+      (∃ x ∈ familyBranch (lastOf id) (mmr N), x.1 = a) ∧
+      (∀ x ∈ familyBranch (lastOf id) (mmr N), x.1 < a → V.fromFile x.1 = none) ∧
+      V.fromFile a = some (hAt hf f a) ∧
+      s.root hf (mmr N) (some b) = .ok none ∧
+      s.firstUnprunedParent hf (mmr N) (some b) = .ok (hAt hf f a, 1 + a) ∧
+      s.validate hf (mmr N) (some b) r = .ok () ∧
+      ∀ hlp other left, s.validateWith hf (mmr N) (some b)
+        (if left then hf.node hlp other r else hf.node hlp r other) hlp other left = .ok () :=
+  compacted_full_shape pv id v hg hoff
+
+-- non-vacuity of the hypotheses of `compacted_full_segment`: 11 leaves `10 + i`, the subtree below
+-- position 6 compacted, bitmap {5, 8, 9, 10}; the identifier (height 1, idx 0) is full and its
+-- subtree root (position 2) is off file
+example :
+    PrunedView (Co.termHF Nat) (fun i => 10 + i) 11 (fun j => decide (j ∈ [5, 8, 9, 10]))
+      (compactBelow (spentView (Co.allHashes (Co.termHF Nat) (fun i => 10 + i) 11)
+        ((List.range 11).map fun i => 10 + i) (fun _ => false)) 3 2) ∧
+    FullId ⟨1, 0⟩ (mmr 11) ∧
+    (compactBelow (spentView (Co.allHashes (Co.termHF Nat) (fun i => 10 + i) 11)
+      ((List.range 11).map fun i => 10 + i) (fun _ => false)) 3 2).fromFile (lastOf ⟨1, 0⟩) = none := by
+  have h11 : nLeaves (mmr 11) = 11 := GV.Props.C07.nLeaves_at_leaf_boundary 11
+  refine ⟨spentView_compactBelow_pruned (Co.termHF Nat) (fun i => 10 + i) 11 _ (fun _ => false)
+    (by decide) 3 2 (by decide) (by
+      intro j _ h
+      have : j = 0 ∨ j = 1 ∨ j = 2 ∨ j = 3 := by omega
+      rcases this with rfl | rfl | rfl | rfl <;> decide),
+    ⟨by decide, by rw [h11]; decide, by rw [h11]; decide⟩, ?_⟩
+  have hb : below 3 2 (lastOf ⟨1, 0⟩) = true := by decide +kernel
+  simp only [compactBelow, hb, if_true]
+
+/-- **the walk-up lemma** of `first_unpruned_parent`, on its own: started at the level-`j` ancestor
+`anc n j` of leaf `n` with the rest of the family branch (`Co.branchCo`: parents of the levels
+`j+1, j+2, …`), if the segment has no hash at the levels `j ..= j+e`, holds `x` at level `j+e+1`,
+and the bitmap has no bit in the leaf range of each of the levels `j+1 ..= j+e+1`, the loop
+returns `(x, 1 + position of level j+e+1)`. -/
+theorem first_unpruned_parent_walk (s : Segment α H) (b : Nat → Bool) (nl n : Nat) (x : H)
+    (e j r : Nat)
+    (hmiss : ∀ i, i ≤ e → s.getHash (anc n (j + i)) = .err (.missingHash (anc n (j + i))))
+    (hget : s.getHash (anc n (j + e + 1)) = .ok x)
+    (hcard : ∀ i, i ≤ e → rangeCard b (subtreeLeafRange (anc n (j + i + 1)) nl).1
+      (subtreeLeafRange (anc n (j + i + 1)) nl).2 = 0) :
+    fupLoop s b nl (anc n j) (Co.branchCo n j (e + 1 + r)) = .ok (x, 1 + anc n (j + e + 1)) :=
+  fupLoop_walk s b nl n x e j r hmiss hget hcard
+
+/-- **Why `PrunedView` has the field `data_compacted`** (a fact about the model's record, not about
+the code: no store state answers like this, both file reads test `is_compacted` first).  The
+record without that field (`PrunedViewWeak`) is satisfied by `keepDataView`: the 4-leaf MMR
+(size 7), empty bitmap, positions 0..5 off the hash file, peak 6 on file, but the data of every
+leaf still answered.  For it `from_pmmr((height 1, idx 0), prunable = true)` collects leaf data,
+does not take the "fully pruned segment" branch, asks `get_hash` for position 5 (the sibling of the
+segment root 2) and fails with `MissingHash(5)`: completeness would be false.  Kernel-evaluated. -/
+theorem pruned_view_needs_data_compacted :
+    PrunedViewWeak (Co.termHF Nat) (fun i => 10 + i) 4 (fun _ => false) keepDataView ∧
+    FitId ⟨1, 0⟩ 4 ∧
+    fromPmmr (Co.termHF Nat) keepDataView ⟨1, 0⟩ true = .err (.missingHash 5) :=
+  keepData_fails
 
 /-- what the honest pruned segment's root and first unpruned parent are, for a full segment whose
 subtree root is on file: `Some(committed hash)` iff a leaf below is required (`liveAt`), and in
@@ -878,6 +968,59 @@ example : ∀ id ∈ [(⟨1, 0⟩ : Ident), ⟨2, 0⟩, ⟨1, 3⟩, ⟨2, 2⟩, 
       (fun j => decide (j ∈ [2, 3, 5, 8, 9, 10])) (fun p => decide (p ∈ [0, 1, 7, 10, 11])) id fit.1
       (by decide) fit.2).2 1 (by simp [trailingOnes]) (by decide) (by decide) (by decide)
   exact ⟨s, r, h1, h2, h3⟩
+
+/-- **On lists, for sources in which a whole subtree was compacted**: leaves spent in any pattern
+(`removed`), every position strictly below the node `(n0, h0)` — the subtree of height `h0` whose
+last leaf is `n0` — taken off both files (`compactBelow`; the pruned root stays), no leaf below it
+marked in the bitmap.  Every segment of height ≥ 1 that intersects the MMR is generated and
+validates; the segments of height < `h0` inside that subtree are completely compacted ones. -/
+theorem segment_complete_compacted_subtree (hf : HashFn α H) [DecidableEq H] (xs : List α)
+    (b removed : Nat → Bool) (id : Ident) (fit : FitId id xs.length) (hN : xs.length < 2 ^ 32)
+    (hg : 1 ≤ id.height) (n0 h0 : Nat) (hn0 : n0 < xs.length)
+    (hun : ∀ j, n0 + 1 - 2 ^ h0 ≤ j → j ≤ n0 → b j = false) :
+    ∃ s r, fromPmmr hf (compactBelow (spentView (Spec.Mmr.hashes hf xs) xs removed) n0 h0) id true = .ok s ∧
+      Spec.Mmr.root hf xs = some r ∧ s.id = id ∧ s.validate hf (mmr xs.length) (some b) r = .ok () ∧
+      ∀ hlp other left, s.validateWith hf (mmr xs.length) (some b)
+        (if left then hf.node hlp other r else hf.node hlp r other) hlp other left = .ok () :=
+  complete_pruned_list_subtree hf xs b removed id fit hN hg n0 h0 hn0 hun
+
+-- non-vacuity: the 11-leaf MMR, leaves 0..3 spent and the whole subtree below position 6 compacted
+-- (positions 0..5 off file, the pruned root 6 on file), leaves 4, 6, 7 spent but on file,
+-- bitmap = {5, 8, 9, 10}: (1,0) and (1,1) are completely compacted (one hash, at 6), (2,0) is the
+-- pruned root itself, (3,0) is partly compacted, (1,3) completely spent but not compacted,
+-- (2,2) and (1,5) final segments
+example : ∀ id ∈ [(⟨1, 0⟩ : Ident), ⟨1, 1⟩, ⟨2, 0⟩, ⟨3, 0⟩, ⟨1, 3⟩, ⟨2, 2⟩, ⟨1, 5⟩],
+    ∃ s r, fromPmmr (Co.termHF Nat)
+        (compactBelow (spentView (Spec.Mmr.hashes (Co.termHF Nat) [10, 11, 12, 13, 14, 15, 16, 17, 18, 19, 20])
+          [10, 11, 12, 13, 14, 15, 16, 17, 18, 19, 20] (fun p => decide (p ∈ [0, 1, 3, 4, 7, 10, 11]))) 3 2)
+        id true = .ok s ∧
+      Spec.Mmr.root (Co.termHF Nat) [10, 11, 12, 13, 14, 15, 16, 17, 18, 19, 20] = some r ∧
+      s.validate (Co.termHF Nat) (mmr 11) (some fun j => decide (j ∈ [5, 8, 9, 10])) r = .ok () := by
+  intro id hid
+  have fit : FitId id 11 ∧ 1 ≤ id.height := by
+    simp only [List.mem_cons, List.mem_nil_iff, or_false] at hid
+    rcases hid with rfl | rfl | rfl | rfl | rfl | rfl | rfl <;>
+      exact ⟨⟨by decide, by decide, by decide⟩, by decide⟩
+  obtain ⟨s, r, h1, h2, _, h3, _⟩ :=
+    segment_complete_compacted_subtree (Co.termHF Nat) [10, 11, 12, 13, 14, 15, 16, 17, 18, 19, 20]
+      (fun j => decide (j ∈ [5, 8, 9, 10])) (fun p => decide (p ∈ [0, 1, 3, 4, 7, 10, 11])) id fit.1
+      (by decide) fit.2 3 2 (by decide) (by
+        intro j _ h
+        have : j = 0 ∨ j = 1 ∨ j = 2 ∨ j = 3 := by omega
+        rcases this with rfl | rfl | rfl | rfl <;> decide)
+  exact ⟨s, r, h1, h2, h3⟩
+
+-- … and what the two completely compacted segments of that example look like (kernel-evaluated on
+-- the model): one hash at position 6, no leaves, a proof of two hashes (the sibling 13 of 6 and the
+-- bagged peaks 17, 18 to the right); the segment root position 2 resp. 5 is off file
+example : ∀ id ∈ [(⟨1, 0⟩ : Ident), ⟨1, 1⟩],
+    (match fromPmmr (Co.termHF Nat)
+        (compactBelow (spentView (Spec.Mmr.hashes (Co.termHF Nat) [10, 11, 12, 13, 14, 15, 16, 17, 18, 19, 20])
+          [10, 11, 12, 13, 14, 15, 16, 17, 18, 19, 20] (fun p => decide (p ∈ [0, 1, 3, 4, 7, 10, 11]))) 3 2)
+        id true with
+      | .ok s => s.hashPos == [6] && s.leafPos == [] && s.leafData == [] && s.proof.length == 2
+      | _ => false) = true := by
+  decide +kernel
 
 /-! ### The segment-root part alone, relative to an abstract node law (kept: it also covers hash
 vectors that were not built by `push`, e.g. what `PMMR::validate` accepted) -/
